@@ -359,6 +359,10 @@ func ruleGateCap(w *World, r *Report) {
 		return o.Signature.Recv() == nil && o.Pkg != nil && o.Pkg.Pkg.Path() == modPath+"/core" && o.Name() == "SetProp"
 	}
 	g := newGateEngine(w, []gateSpec{capGate}, isSink, skip)
+	// a helper that turns the test into an error (`checkCapacity`) is a gate of its own
+	if wr := g.deriveWrappers(func(fn *ssa.Function) bool { return w.RelPkg(fn) == "core" && !a.inStateLayer(fn) }); len(wr) > 0 {
+		r.Notes = append(r.Notes, "GATE-CAP: gate wrappers: "+strings.Join(wr, ", "))
+	}
 	for _, name := range []string{"AddFact", "AddRule"} {
 		fn := w.Method("core", "Location", name)
 		key := "entry=" + fname(fn)
